@@ -98,7 +98,7 @@ def special_c11(tier, seed, th, chk):
         fails, stats, samples = chk.run_cases(binp, witc, cdir)
         os.remove(witc)
         stats["cases.pass1"] = n1
-        r = {"family": "witness(core+block+chunk)", "variant": "dev", "tier": tier, "seed": seed, "n": n2, "fails": fails[:2000], "nfails": len(fails),
+        r = {"family": "witness(core+block+chunk)", "variant": "dev", "tier": tier, "seed": seed, "n": n2, "fails": chk.cap_per_prop(fails), "nfails": len(fails),
              "stats": stats, "samples": samples, "wall": time.time() - t0, "cached": False}
         json.dump(r, open(res_path, "w"))
         return [r]
